@@ -132,14 +132,4 @@ def filterStore (f : Filter) (st : Store) : Store :=
 def appendStore (a b : Store) : Store :=
   a.map fun e => { e with rules := e.rules ++ b.get e.key }
 
-/-- the line is inside the domain on which the code's naive `split(",")` sees the fields the loader sees, and the
-    filter is not longer than the rule (F20) -/
-def naiveOK (f : Filter) (line : Str) : Bool :=
-  match parseLine line with
-  | .ok (some (k, r)) =>
-    (splitOn ',' line).map strip == k :: r &&
-    (if k == ['p'] then f.P.length ≤ r.length else if k == ['g'] then f.G.length ≤ r.length else true)
-  | .ok none => true
-  | .error _ => false
-
 end Casbin.Persist.Spec
